@@ -24,9 +24,10 @@ RULE = "hold-out choices, operation codes and revealed plates are solver-enumera
 BUDGET_S = {"quick": 240, "thorough": 1500}
 TASK_QUOTA = 60
 
+# two doses of one treatment that agree to six decimals (1.0 and 1.0000003: distinct conditions, distinct ids);
 # names of pairwise different lengths: whichever sample / treatment ends up only in held-out rows may be the longest one
 ROWS5 = [("s2", "d", 1.0, "e", 1.0, "obs"), ("s0-long-name", "a", 1.0, "bb", 2.0, "u1"), ("s1x", "cccc-long", 1.0, "bb", 1.0, "u1"),
-         ("s2", "a", 2.0, "ffffff-longer", 1.0, "u2"), ("s1x", "g-the-longest-name", 1.0, "", 0.0, "u2")]
+         ("s2", "a", 1.0000003, "ffffff-longer", 1.0, "u2"), ("s1x", "g-the-longest-name", 1.0, "", 0.0, "u2")]
 ROWS7 = ROWS5 + [("s3-the-longest-sample", "h", 1.0, "a", 1.0, "u3"), ("s0-long-name", "bb", 3.0, "cccc-long", 2.0, "u3")]
 
 
